@@ -83,6 +83,12 @@ class Session:
         s, c = kids[which % len(kids)]
         return self.run(e, self.w.expire(e, bytes(c.inbound_spi), True, proto=50 if c.proposal.protocol_id == 3 else 51))
 
+    def delete_ike(self, e):
+        """The IKE_SA reaches its hard lifetime limit: DELETE exchange; both ends drop it (a later ACQUIRE starts a new IKE_SA on the same configuration)."""
+        sa = next(s for s in self.w.sas(e) if s.state == IkeSa.State.ESTABLISHED)
+        sa.delete_ike_sa_at = self.w.now - 1
+        return self.run(e, self.w.timer(e, sa, 'check_rekey_ike_sa_timer'))
+
     def rekey_ike(self, e):
         sa = next(s for s in self.w.sas(e) if s.state == IkeSa.State.ESTABLISHED)
         sa.rekey_ike_sa_at = self.w.now - 1
